@@ -60,9 +60,21 @@ Check(ev, prev) ==
      ELSE IF ev.hang THEN {F("C10", "an operation did not complete (hang)", ev.tid)}
      ELSE IF Len(pn) > 0 THEN {F("C10", "panic in a worker thread", pn[1].msg)} ELSE
        (IF Cardinality(created) # Len(cr) \/ Cardinality({h[1] : h \in created}) # Len(cr)
-        THEN {F("C10", "created handles are not pairwise distinct", [k \in 1..Len(cr) |-> cr[k].h])} ELSE {})
+        THEN {F("C10", "created handles are not pairwise distinct", [k \in 1..Len(cr) |-> cr[k].h]),
+              F("C01", "created handles are not pairwise distinct", [k \in 1..Len(cr) |-> cr[k].h])} ELSE {})
   \cup (IF \E h \in created : h \in initAll \/ h[1] \in {g[1] : g \in initLive}
-        THEN {F("C10", "a created handle collides with an existing entity", [k \in 1..Len(cr) |-> cr[k].h])} ELSE {})
+        THEN {F("C10", "a created handle collides with an existing entity", [k \in 1..Len(cr) |-> cr[k].h]),
+              F("C01", "a created handle collides with an existing entity", [k \in 1..Len(cr) |-> cr[k].h])} ELSE {})
+  \* C17 under shared access: a creator takes a never-used index only when it found the free list empty,
+  \* so at most (creations - free indices at the start of the frame) never-used indices are taken
+  \* (first frame only: there the harness knows every index handed out so far)
+  \cup (IF ev.frame = 0 /\ Len(cr) > 0
+        THEN LET nknown == Len(ev.init)
+                 nfree == Cardinality({k \in 1..Len(ev.init) : ~ev.init[k][3]})
+                 extra == IF Len(cr) > nfree THEN Len(cr) - nfree ELSE 0
+                 high == {h \in created : h[1] >= nknown + extra}
+             IN IF high # {} THEN {F("C17", "a creation through shared access took a never-used index while recycled ones were free (handles, indices so far, free, creations)", <<high, nknown, nfree, Len(cr)>>)} ELSE {}
+        ELSE {})
   \cup {F("C10", "own handle not alive when the creation returned", cr[k].h) : k \in {j \in 1..Len(cr) : ~cr[j].alive}}
   \cup {F("C10", "deletion request: result differs from the handle's aliveness (handle, result)", <<de[k].h, de[k].ok>>)
           : k \in {j \in 1..Len(de) : de[j].ok # (de[j].h \in liveH)}}
